@@ -1,0 +1,12 @@
+//go:build verif
+
+package exporter
+
+// This file is compiled only with the "verif" build tag.
+
+// VerifSetSeqNumber sets the sequence counter, so that a verification harness can
+// reach the 2^32 wrap without sending 2^32 records. It must not be called
+// concurrently with SendSet.
+func (ep *ExportingProcess) VerifSetSeqNumber(n uint32) {
+	ep.seqNumber = n
+}
